@@ -3,6 +3,11 @@ package main
 import (
 	"fmt"
 	"runtime"
+	"strings"
+	"sync/atomic"
+	"time"
+
+	"verifharness/hx"
 
 	"github.com/iotaledger/hive.go/runtime/workerpool"
 )
@@ -58,8 +63,74 @@ func runConfig(line string) *result {
 	if !within(bound, gp.ShutdownComplete.Wait) {
 		r.fail("termination", "group pool not complete after Group.Shutdown", classifyPool(gp, "complete"))
 	}
+	dupNames(r, bad)
 	r.count("config")
 	r.nontriv = line
 
 	return r
+}
+
+// dupNames: CreatePool / CreateGroup with a name that exists already.  While the previous pool runs (the previous group
+// is not shut down) the call panics — and the previous pool keeps working and counting in its group; once the previous
+// one is stopped the call replaces the map entry and BOTH pools go on counting in the group (the subscription of the
+// replaced pool stays): WaitChildren returns only when neither has pending tasks.
+func dupNames(r *result, bad func(what string, got, want any)) {
+	g := workerpool.NewGroup("dup")
+	old := g.CreatePool("p", workerpool.WithWorkerCount(1), workerpool.WithCancelPendingTasksOnShutdown(false))
+	p := hx.Safely(func() { g.CreatePool("p", workerpool.WithWorkerCount(1)) })
+	bad("CreatePool with the name of a running pool panics", strings.Contains(p, "already exists"), true)
+	gate := make(chan struct{})
+	var ran atomic.Int32
+	old.Submit(func() { <-gate; ran.Add(1) })
+	bad("the previous pool still counts in its group after the refused CreatePool", g.PendingChildrenCounter.Get(), 1)
+	bad("WaitChildren blocks while the previous pool has a pending task", within(40*time.Millisecond, g.WaitChildren), false)
+	// stop the previous pool (its task is still pending: no cancel) and replace it
+	if !guarded(r, old, "shutdown", func() { old.Shutdown() }) {
+		close(gate)
+
+		return
+	}
+	if cur, ok := g.Pool("p"); ok && cur != old {
+		// the refused CreatePool has left its never-started pool in the map (Set comes before the check): stop-and-replace works on it
+		bad("the pool left behind by the refused CreatePool is not running", cur.IsRunning(), false)
+	}
+	var fresh *workerpool.WorkerPool
+	p = hx.Safely(func() { fresh = g.CreatePool("p", workerpool.WithWorkerCount(1)) })
+	bad("CreatePool with the name of a stopped pool succeeds", p, "")
+	if fresh != nil {
+		bad("the replacing pool runs", fresh.IsRunning(), true)
+		gate2 := make(chan struct{})
+		fresh.Submit(func() { <-gate2; ran.Add(1) })
+		bad("replaced and replacing pool both count in the group", g.PendingChildrenCounter.Get(), 2)
+		close(gate2)
+		if !waitFor(bound, func() bool { return fresh.PendingTasksCounter.Get() == 0 }) {
+			r.fail("termination", "task of the replacing pool did not finish", classifyPool(fresh, "zero"))
+		}
+		bad("WaitChildren still blocks: the REPLACED pool has a pending task", within(40*time.Millisecond, g.WaitChildren), false)
+	}
+	close(gate)
+	if !within(bound, g.WaitChildren) {
+		r.fail("termination", "WaitChildren did not return after the tasks of both pools finished", map[string]string{"api": "workerpool.Group.WaitChildren", "effect": "hang"})
+	}
+	bad("both tasks ran", ran.Load(), map[bool]int{true: 2, false: 1}[fresh != nil])
+	if !within(bound, old.ShutdownComplete.Wait) {
+		r.fail("termination", "the replaced pool did not complete its shutdown", classifyPool(old, "complete"))
+	}
+	// groups
+	sub := g.CreateGroup("s")
+	p = hx.Safely(func() { g.CreateGroup("s") })
+	bad("CreateGroup with the name of a live group panics", strings.Contains(p, "already exists"), true)
+	if cur, ok := g.Group("s"); ok && cur != sub {
+		cur.Shutdown()
+	}
+	sub.Shutdown()
+	p = hx.Safely(func() { g.CreateGroup("s") })
+	bad("CreateGroup with the name of a shut-down group succeeds", p, "")
+	if !within(bound, g.Shutdown) {
+		r.fail("termination", "Group.Shutdown did not return", map[string]string{"api": "workerpool.Group.Shutdown", "effect": "hang"})
+	}
+	if fresh != nil && !within(bound, fresh.ShutdownComplete.Wait) {
+		r.fail("termination", "the replacing pool did not complete after Group.Shutdown", classifyPool(fresh, "complete"))
+	}
+	r.count("config-dup-names")
 }
